@@ -3,6 +3,7 @@ package main
 import (
 	"fmt"
 	"go/token"
+	"go/types"
 	"strings"
 
 	"golang.org/x/tools/go/ssa"
@@ -30,10 +31,10 @@ func ruleGC(c *Ctx, rule string) {
 		if fn.Pkg.Pkg.Path() != modPath+gcPkg {
 			continue
 		}
-		for _, d := range calls(fn, gcPkg+".removeLeakyIPFile", "(*flannelGC).removeLeakyStateFile", "netlink.LinkDel") {
+		for _, d := range callsLocal(fn, gcPkg+".removeLeakyIPFile", "(*flannelGC).removeLeakyStateFile", "netlink.LinkDel") {
 			n++
 			var sc []*ssa.Call
-			for _, s := range calls(fn, "(*flannelGC).shouldCleanup") {
+			for _, s := range callsLocal(fn, "(*flannelGC).shouldCleanup") {
 				sc = append(sc, s.(*ssa.Call))
 			}
 			yes := guardEdges(fn, predBool(func(v ssa.Value) bool {
@@ -88,7 +89,7 @@ func ruleGC(c *Ctx, rule string) {
 			c.ob(rule, fn, shortCallee(d)+" only if shouldCleanup said so, for the same container", d, ok && same, fmt.Sprintf("reachable only through the true edge of shouldCleanup (=%v); remover operand and decision operand name the same entry (=%v)", ok, same))
 		}
 		// raw deletions live only in the removers
-		for _, d := range calls(fn, "os.Remove") {
+		for _, d := range callsLocal(fn, "os.Remove") {
 			c.ob(rule, fn, "os.Remove only inside the leaky-file removers", d, strings.HasPrefix(fn.Name(), "removeLeaky"), "state files are deleted only by removeLeakyIPFile / removeLeakyStateFile")
 		}
 	}
@@ -98,12 +99,18 @@ func ruleGC(c *Ctx, rule string) {
 	// R2: fail-safe decision function
 	if fn := c.MustFn(rule, gcPkg, "(*flannelGC).shouldCleanup"); fn != nil {
 		trues := returnsConstBool(fn, true)
-		grpcNF := guardEdges(fn, predEq(func(v ssa.Value) bool { return isResultOf(v, 0, "status.Status).Code") }, func(v ssa.Value) bool {
+		// the decision may be split over same-package helpers whose result shouldCleanup returns
+		for _, h := range helperFns(fn, 2) {
+			if h.Signature.Results().Len() == 1 && types.Identical(h.Signature.Results().At(0).Type(), types.Typ[types.Bool]) {
+				trues = append(trues, returnsConstBool(h, true)...)
+			}
+		}
+		grpcNF := guardEdgesX(fn, predEq(func(v ssa.Value) bool { return isResultOf(v, 0, "status.Status).Code") }, func(v ssa.Value) bool {
 			k, ok := v.(*ssa.Const)
 			return ok && k.Value != nil && strings.HasSuffix(k.Type().String(), "codes.Code") && k.Int64() == 5
 		}))
-		k8sNF := guardEdges(fn, predCall("errors.IsNotFound", nil))
-		dockerNF := guardEdges(fn, predBool(func(v ssa.Value) bool {
+		k8sNF := guardEdgesX(fn, predCall("errors.IsNotFound", nil))
+		dockerNF := guardEdgesX(fn, predBool(func(v ssa.Value) bool {
 			ex, ok := v.(*ssa.Extract)
 			if !ok || ex.Index != 1 {
 				return false
@@ -111,11 +118,11 @@ func ruleGC(c *Ctx, rule string) {
 			ta, ok := ex.Tuple.(*ssa.TypeAssert)
 			return ok && typeNameOf(ta.AssertedType) == "ContainerNotFoundError"
 		}))
-		dead := guardEdges(fn, predEq(func(v ssa.Value) bool { return pathEndsWith(v, "State", "Status") || pathEndsWith(v, "Status") }, func(v ssa.Value) bool {
+		dead := guardEdgesX(fn, predEq(func(v ssa.Value) bool { return pathEndsWith(v, "State", "Status") || pathEndsWith(v, "Status") }, func(v ssa.Value) bool {
 			s, ok := constStringVal(v)
 			return ok && (s == "exited" || s == "dead")
 		}))
-		notReady := guardEdges(fn, predEq(func(v ssa.Value) bool { return pathEndsWith(v, "State") }, func(v ssa.Value) bool {
+		notReady := guardEdgesX(fn, predEq(func(v ssa.Value) bool { return pathEndsWith(v, "State") }, func(v ssa.Value) bool {
 			k, ok := v.(*ssa.Const)
 			return ok && strings.Contains(k.Type().String(), "PodSandboxState") && k.Int64() == 1
 		}))
@@ -132,7 +139,7 @@ func ruleGC(c *Ctx, rule string) {
 		c.ob(rule, fn, "`return true` only through a not-found / exited / dead / sandbox-not-ready classifier", nil, bad == 0 && len(trues) >= 4 && len(grpcNF) == 1 && len(k8sNF) == 1 && len(dockerNF) == 1 && len(dead) == 2 && len(notReady) == 1,
 			fmt.Sprintf("%d `return true`; classifier edges: grpc NotFound %d, apierrors.IsNotFound %d, ContainerNotFoundError %d, status exited/dead %d, SANDBOX_NOTREADY %d; reachable without any of them: %d", len(trues), len(grpcNF), len(k8sNF), len(dockerNF), len(dead), len(notReady), bad))
 		// every error edge keeps the state unless classified not-found
-		for _, s := range calls(fn, "(*DockerInterface).ContainedInspectContainer", "(*DockerInterface).DockerInspectContainer", "PodInterface).Get") {
+		for _, s := range callsAllX(fn, "(*DockerInterface).ContainedInspectContainer", "(*DockerInterface).DockerInspectContainer", "PodInterface).Get") {
 			ts := errTests(s)
 			ok := len(ts) > 0
 			for _, t := range ts {
@@ -146,7 +153,7 @@ func ruleGC(c *Ctx, rule string) {
 			c.ob(rule, fn, "an error of "+shortCallee(s)+" other than not-found keeps the state", s, ok, "from the err!=nil edge `return true` is reachable only through the not-found classifier")
 		}
 		// a live workload keeps the sandbox's state
-		alive := guardEdges(fn, predNeq(func(v ssa.Value) bool { return pathEndsWith(v, "Waiting") || pathEndsWith(v, "Running") }, isNilConst))
+		alive := guardEdgesX(fn, predNeq(func(v ssa.Value) bool { return pathEndsWith(v, "Waiting") || pathEndsWith(v, "Running") }, isNilConst))
 		okA := len(alive) == 2
 		for _, e := range alive {
 			rr := reachFromEdge(e, nil)
@@ -158,7 +165,7 @@ func ruleGC(c *Ctx, rule string) {
 		}
 		c.ob(rule, fn, "a sandbox with a waiting or running container is kept", nil, okA, "from the Waiting != nil / Running != nil edges `return true` is unreachable")
 		// the runtime is asked on every path
-		insp := calls(fn, "(*DockerInterface).ContainedInspectContainer", "(*DockerInterface).DockerInspectContainer")
+		insp := callsAllX(fn, "(*DockerInterface).ContainedInspectContainer", "(*DockerInterface).DockerInspectContainer")
 		rr := reachFromEntry(fn, newCut().callInstrs(insp))
 		asked := true
 		for _, ret := range returns(fn) {
